@@ -260,7 +260,7 @@ impl Check for C04 {
             doc.pay.max_len = 24;
             doc.pay.boundary_pct = 0;
         }
-        let io = InputOpts { doc, faulted_pct: 25, truncated_pct: 15, random_pct: 5, soup_pct: 5, max_faults: 3 };
+        let io = InputOpts { doc, faulted_pct: 25, truncated_pct: 15, random_pct: 5, soup_pct: 5, max_faults: 3, mid_document_pct: 8 };
         let mut gi = cases::gen_input(&mut rng, &spec, &io, &mut fs);
         if sweep == Some(Sweep::AllCompositions) {
             gi.bytes.truncate(12);
